@@ -24,6 +24,17 @@ def jobs_c13(prop, tier, seed):
             for k in range(sl):
                 execs.append(({"store": low, "threads": rng.choice([4, 8]), "ops": 400 * sl}, []))
         J.append(Job(cfg, "threads", "LockTrace", execs, "threads"))
+    # the same kinds of executions under ThreadSanitizer (fewer, shorter: about ten times slower)
+    execs = []
+    for store in ("direct", "ref", "anyref", "stateless"):
+        execs.append(({"store": store, "mode": "single"}, []))
+        for k in range(s if tier == "quick" else 20):
+            execs.append(({"store": store, "mode": "stress", "threads": rng.choice([2, 3, 4]), "ops": rng.choice([30, 60]),
+                           "seed": rng.randint(1, 10 ** 6)}, []))
+    for low in ("low_heap", "low_malloc", "low_new"):
+        for k in range(2 if tier == "quick" else 10):
+            execs.append(({"store": low, "threads": rng.choice([2, 4]), "ops": 100}, []))
+    J.append(Job("tsan", "threads", "LockTrace", execs, "tsan"))
     return J
 
 
